@@ -192,10 +192,13 @@ pub fn lead_byte_char(k: usize) -> char {
 /// Contexts (what precedes) x followers (the next character) x suffixes, enumerated completely:
 /// every scanner state in which the next character is classified by a byte-level or char-level
 /// predicate, followed by every class of character.
-pub const CONTEXTS: [&str; 44] = [
+pub const CONTEXTS: [&str; 70] = [
     "", "a", "a ", "- ", "? ", "a:", "a: ", "[", "[a", "[a,", "[ ", "{", "{a", "{a:", "{a: ", "!t", "[!t", "{!t", "- !t", "!!str", "[!<x>",
     "&a", "[&a", "*a", "[*a", "- &a", "\"a", "'a", "[\"a\"", "#", "a #", "|", ">", "|2", "a: |", "%YAML 1.", "%YAML 1", "%TAG !e", "%TAG !e! t", "%F",
     "---", "...", "a\n", "- a\n ",
+    // adjacency contexts: indicators directly after a scalar / key / quote, in flow and in block
+    "[a:", "{a:", "{\"a\":", "[\"a\":", "[?", "{?", "[:", "{:", "a #", "a#", "'a'", "\"a\"", "- a:", "? a", "? a\n:", "a: b\n c", "a: b\n  ", "&a *",
+    "!e!", "!", "!<", "!<a", "%TAG ! ", "%TAG !e! ", "|\n a\n", ">\n a\n\n",
 ];
 pub const FOLLOW_ASCII: [char; 34] = [
     'a', 'Z', '0', '9', ' ', '\t', '\n', '\r', '\0', '-', '.', ':', '?', ',', '[', ']', '{', '}', '#', '&', '*', '!', '|', '>', '\'', '"', '%', '@', '`',
